@@ -314,7 +314,7 @@ CC(op, a, b) ==
 Cell(o, a, b) ==
   LET d == Demand(o, a, b)  s == Struct(o, a, b)
   IN [d |-> FmtR(d), m |-> FmtR(s.r), p |-> s.path, c |-> CC(o, a, b),
-      dx |-> d.t = "e" \/ ~AnyIx(d.z), mx |-> s.r.t = "e" \/ ~AnyIx(s.r.z)]
+      dx |-> d.t = "e" \/ ~AnyIx(d.z), mx |-> s.r.t = "e" \/ ~AnyIx(s.r.z), nd |-> (d.t = "e" /\ d.exc # "ZDE")]
 
 ---------------------------------------------------------------------------
 VARIABLES op, fx, row
@@ -358,6 +358,10 @@ AbsAgree == op = "abs" => \A y \in Ys : ((IsZero(y) /\ Mid(fx[1])) \/ (IsZero(fx
 ConvAgree == op = "conv" => \A y \in Ys : (IsFin(y) /\ ~(IsZero(fx[1]) /\ fx[1].s = -1)) => row[y].c = row[y].d
 (* struct conversions are exact *)
 StructConvAgree == op \in {"conv", "fromreal"} => \A y \in Ys : row[y].m = row[y].d
+
+(* NOT an invariant of the unchanged tree: the strict configuration must fail (TLC finds the deviations itself) *)
+StructAgreesEverywhere == \A y \in Ys : (row[y].dx /\ row[y].mx /\ ~row[y].nd) => row[y].m = row[y].d
+ConvAgreesEverywhere == op = "conv" => \A y \in Ys : row[y].c = row[y].d
 
 Publish == (Dump /\ row # NoRow) =>
              PrintT("@@" \o ToJson([op |-> op, f |-> <<FmtF(fx[1]), FmtF(fx[2]), FmtF(fx[3])>>,
